@@ -67,4 +67,14 @@ theorem prf_converged_rest_below_fixed (p : Nat) (s' : St Int) :
     ∀ c ∈ (prfS6 (fixedArith p) s').hopeful, c.vote < (prfS4 (fixedArith p) s').quota :=
   C04.prf_rest_below_fixed p s'
 
+/-- C07 for meek-prf: the candidate excluded after a converged iteration is a hopeful whose tally is within the surplus of the
+    lowest tally (reference rule B.3) -/
+theorem prf_excluded_near_lowest (s : St α) (hd : Cand α) (hs : List (Cand α)) (hh : s.hopeful = hd :: hs) (lc : Cand α)
+    (hb : (breakTie A s (s.hopeful.filter (fun c => A.ge (A.add (A.vMin hd.vote (hs.map (·.vote))) s.surplus) c.vote))
+      "Break tie (defeat low candidate)").2 = some lc) :
+    lc ∈ s.hopeful ∧ A.ge (A.add (A.vMin hd.vote (hs.map (·.vote))) s.surplus) lc.vote = true := by
+  have := breakTie_mem A s _ _ lc hb
+  rw [List.mem_filter] at this
+  exact this
+
 end Droop.C08
